@@ -249,11 +249,21 @@ fn div<R: RealNumberInternalTrait>(
 ) -> Result<Value<R>> {
     let mut iter = arguments.into_iter();
     let first = iter.next().unwrap().expect_number()?;
-    let init = match iter.next() {
-        Some(value) => (first / value.expect_number()?)?,
-        None => (Number::Integer(1) / first)?,
+    // while every operand so far is exact, an exact zero divisor is an error even when the
+    // running quotient has left the exact range and is carried on as a real
+    let mut exact_so_far = !matches!(first, Number::Real(_));
+    let mut divide = |a: Number<R>, b: Number<R>| -> Result<Number<R>> {
+        exact_so_far = exact_so_far && !matches!(b, Number::Real(_));
+        if exact_so_far && matches!(b, Number::Integer(0) | Number::Rational(0, _)) {
+            return error!(LogicError::DivisionByZero);
+        }
+        a / b
     };
-    iter.try_fold(init, |a, b| (a / b.expect_number()?))
+    let init = match iter.next() {
+        Some(value) => divide(first, value.expect_number()?)?,
+        None => divide(Number::Integer(1), first)?,
+    };
+    iter.try_fold(init, |a, b| divide(a, b.expect_number()?))
         .map(|num| Value::Number(num))
 }
 
